@@ -126,4 +126,15 @@ MUTANTS = [
     ("C09", "tola.assembly.build_utils.ChrNamer.__init__", "tola.assembly.build_utils", "        self.chr_prefix = chr_prefix\n", "        self.chr_prefix = chr_prefix or \"SUPER_\"\n"),
     ("C09", "tola.assembly.build_utils.ChrNamer.add_scaffold", "tola.assembly.build_utils", "        self.scaffolds.append((haplotype, scffld))", "        self.scaffolds.append((haplotype, scffld))\n        scffld.haplotype = hap"),
     ("C09", "tola.assembly.build_utils.ChrNamer.add_scaffold", "tola.assembly.build_utils", "        self.scaffolds.append((haplotype, scffld))", "        self.scaffolds.insert(0, (haplotype, scffld))"),
+    ("C10", "tola.assembly.build_utils.ChrNamer.add_chr_prefix", "tola.assembly.build_utils", "        if not scffld.name.startswith(prefix):\n            scffld.name = prefix + scffld.name", "        scffld.name = prefix + scffld.name"),
+    ("C10", "tola.assembly.build_utils.ChrNamer.add_chr_prefix", "tola.assembly.build_utils", "scffld.name = prefix + scffld.name", "scffld.name = scffld.name + prefix"),
+    ("C10", "tola.assembly.build_utils.ScaffoldNamer.__init__", "tola.assembly.build_utils", "        self.haplotig_n = 0\n", "        self.haplotig_n = 1\n"),
+    ("C10", "tola.assembly.build_utils.ScaffoldNamer.__init__", "tola.assembly.build_utils", "        self.unloc_scaffolds = []\n", "        self.unloc_scaffolds = self.haplotig_scaffolds\n"),
+    ("C09", "tola.assembly.build_utils.ScaffoldNamer.__init__", "tola.assembly.build_utils", "        self.target_tags = False\n", "        self.target_tags = True\n"),
+    ("C10", "tola.assembly.build_utils.ScaffoldNamer.rename_by_size", "tola.assembly.build_utils", "            s.name = n\n", "            s.name = n\n        if self.unloc_scaffolds:\n            self.unloc_scaffolds[0].name = names[0]\n"),
+    ("C10", "tola.assembly.build_utils.ScaffoldNamer.rename_unlocs_by_size", "tola.assembly.build_utils", "        self.rename_by_size(self.unloc_scaffolds)", "        self.rename_by_size(self.haplotig_scaffolds)"),
+    ("C10", "tola.assembly.build_utils.ScaffoldNamer.rename_haplotigs_by_size", "tola.assembly.build_utils", "        self.rename_by_size(self.haplotig_scaffolds)", "        self.rename_by_size(self.haplotig_scaffolds + self.unloc_scaffolds)"),
+    ("C18", "tola.assembly.build_utils.StartOverhangPremise.apply", "tola.assembly.build_utils", "        self.scaffold.discard_start()", "        self.scaffold.discard_end()"),
+    ("C18", "tola.assembly.build_utils.EndOverhangPremise.apply", "tola.assembly.build_utils", "        self.scaffold.discard_end()", "        self.scaffold.discard_start()"),
+    ("C01", "tola.assembly.build_utils.EndOverhangPremise.apply", "tola.assembly.build_utils", "        self.scaffold.discard_end()", "        self.scaffold.discard_end()\n        self.scaffold.discard_end()"),
 ]
